@@ -334,6 +334,15 @@ def c08_6(ctx):
         if isinstance(n, ast.If):
             tests = n.test.values if isinstance(n.test, ast.BoolOp) else [n.test]
             cls_made = [unparse(c.func).split('.')[-1] for s in n.body for c in ast.walk(s) if isinstance(c, ast.Call) and 'PreprocessorCondition' in unparse(c.func)]
+            # ... or the class is only chosen here and instantiated once after the chain: `k = condition.X` / `self._condition = k(instruction, line_id)`
+            for s in n.body:
+                if isinstance(s, ast.Assign) and isinstance(s.targets[0], ast.Name) and isinstance(s.value, (ast.Name, ast.Attribute)) \
+                        and unparse(s.value).endswith('PreprocessorCondition'):
+                    made = [a for a in ast.walk(cl_init.node) if isinstance(a, ast.Assign) and unparse(a.targets[0]) == 'self._condition'
+                            and isinstance(a.value, ast.Call) and unparse(a.value.func) == s.targets[0].id
+                            and [unparse(x) for x in a.value.args] == [cl_init.call_params[1].arg, cl_init.call_params[0].arg]]
+                    if len(made) == 1:
+                        cls_made.append(unparse(s.value).split('.')[-1])
             for t in tests:
                 lit = None
                 if isinstance(t, ast.Call) and isinstance(t.func, ast.Attribute) and t.func.attr == 'startswith' and isinstance(t.args[0], ast.Constant):
